@@ -387,6 +387,24 @@ func c11SamLines(c *Ctx) {
 							li, kinds[ci], li, traceString(got), traceString(want), li)
 						return
 					}
+					// a consumer that stops at the error item (the usual `return err`)
+					if pv := catch(func() {
+						for _, err := range sam.ReaderHeader(strings.NewReader(text)) {
+							if err != nil {
+								break
+							}
+						}
+						for _, err := range sam.Reader(strings.NewReader(text)) {
+							if err != nil {
+								break
+							}
+						}
+					}); pv != nil {
+						k.Input("corruption", fmt.Sprintf("line %d: %s", li, kinds[ci]))
+						k.Input("text", describeText([]byte(text)))
+						k.Failf("panic-on-stop-at-error", "stopping the iteration at the error item of a malformed line panics: %v", pv)
+						return
+					}
 					k.Nontrivial([]byte(text))
 				}
 			}
